@@ -693,6 +693,14 @@ func (x *Ctx) closureEnv(p *paths.Path, t *paths.Term) (*ssa.Function, map[strin
 			}
 		}
 		out[k] = bt.String()
+		// a struct value (the receiver of a method value built from a literal): its fields are known
+		if bt.Op == "struct" {
+			for i, n := range bt.Names {
+				if i < len(bt.Args) && bt.Args[i] != nil {
+					out[k+"."+n] = bt.Args[i].String()
+				}
+			}
+		}
 	}
 	return f, out
 }
@@ -932,10 +940,15 @@ func (x *Ctx) returnedFunc(p *paths.Path, t *paths.Term) *returnedFunc {
 	if ps == nil {
 		return nil
 	}
+	var keys []string
+	for fv := range bind {
+		keys = append(keys, fv)
+	}
+	sort.Slice(keys, func(i, j int) bool { return len(keys[i]) > len(keys[j]) }) // "recv.kind" before "recv"
 	return &returnedFunc{inner, ps, func(tt *paths.Term) string {
 		s := tt.String()
-		for fv, par := range bind {
-			s = strings.ReplaceAll(s, fv, par)
+		for _, fv := range keys {
+			s = strings.ReplaceAll(s, fv, bind[fv])
 		}
 		return s
 	}}
